@@ -32,6 +32,17 @@ def runSw : List SwCall → SectionWriter → List String
 def showRefOut (o : RefOut) : String :=
   s!"{o.n}/{o.err.getD "nil"}" ++ (match o.ucall with | none => "" | some (off, len) => s!"/{off}/{len}/ok")
 
+/-- a call is inside the domain of the reference machine when the position it asks for is an int64 -/
+def swInDomain : List SwCall → RefSW → Bool
+  | [], _ => true
+  | c :: r, s =>
+    match c with
+    | .seek offset whence =>
+      let target := offset + (if whence = 0 then s.base else if whence = 1 then s.off else s.limit)
+      (whence < 0 || whence > 2 || target ≤ maxOffset) && swInDomain r (s.seek offset whence).1
+    | .write plen ans => swInDomain r (s.write plen ans.accept ans.fail).1
+    | _ => swInDomain r s
+
 /-- reference machine outputs, and the confinement clause checked on them -/
 def runRef : List SwCall → RefSW → List String × Bool
   | [], _ => ([], true)
@@ -53,6 +64,7 @@ def hSw : List String → String → Res
     let calls ← (splitNE calls ";").mapM pSwCall
     let model := String.intercalate ";" (runSw calls (newSectionWriter off n))
     let (refOuts, confined) := runRef calls ⟨off, off, off + n⟩
+    if !swInDomain calls ⟨off, off, off + n⟩ then some (model, "na") else
     some (model, vb (confined && String.intercalate ";" refOuts == impl))
   | _, _ => none
 
@@ -62,6 +74,7 @@ def hAtw : List String → String → Res
     let calls ← (splitNE calls ";").mapM pSwCall
     let model := String.intercalate ";" (runSw calls (atToWriter off))
     let (refOuts, confined) := runRef calls ⟨off, off, maxOffset⟩
+    if !swInDomain calls ⟨off, off, maxOffset⟩ then some (model, "na") else
     some (model, vb (confined && String.intercalate ";" refOuts == impl))
   | _, _ => none
 
@@ -79,9 +92,9 @@ def defaultVer : List Nat := [49, 46, 48, 46, 48]   -- "1.0.0"
 
 def pVer (s : String) : Option (List Nat) := if s = "none" then some defaultVer else pBytes s
 
-/-- `pbm ver body cap mode` → n,err,bytes,Size,HeaderSize -/
+/-- `pbmk kind ver payload body cap mode` → n,err,bytes,Size,HeaderSize (`body` = the message's encoding) -/
 def hPbMarshal : List String → String → Res
-  | [ver, body, cap, mode], impl => do
+  | [_kind, ver, _payload, body, cap, mode], impl => do
     let ver ← pVer ver; let body ← pBytes body; let cap ← pInt cap; let mode ← pNat mode
     let capN := if cap < 0 then 32 + body.length + 1000 else cap.toNat
     let model := match pbMarshal (mode == 1) capN ver body with
@@ -193,7 +206,7 @@ partial def pVal (cs : List Char) : Option (GoVal × List Char) :=
         | none => none
       | _ => none
   match cs with
-  | 'S' :: r => let (n, r') := num r; some (.scalar n, r')
+  | 'S' :: r => let (n, r') := num r; some (.scalar n, r'.dropWhile Char.isLower)
   | 'T' :: r => let (n, r') := num r; some (.str n, r')
   | 'U' :: r => some (.unsupported, r)
   | 'A' :: '[' :: r => (pList r []).map fun (l, r') => (.arr l, r')
@@ -210,10 +223,14 @@ partial def pVal (cs : List Char) : Option (GoVal × List Char) :=
       | _ => none
   | _ => none
 
-/-- `sizeof <value tree>` → Of,first-line-of-Stat -/
+/-- `sizeofgen seed depth` / `sizeofnamed name`: the harness describes the value it built as
+    `<value tree>|<Of>,<first line of Stat>`; the model and the spec are evaluated on that tree -/
 def hSizeOf : List String → String → Res
-  | [v], impl => do
-    let top ← if v = "N" then some none else match pVal v.toList with
+  | _, impl => do
+    let (tree, _res) ← match impl.splitOn "|" with
+      | [t, r] => some (t, r)
+      | _ => none
+    let top ← if tree = "N" then some none else match pVal tree.toList with
       | some (g, []) => some (some g)
       | _ => none
     let model := match sizeOfTop top with
@@ -224,7 +241,16 @@ def hSizeOf : List String → String → Res
     let spec := match top with
       | none => "0,nil"
       | some g => if g.supported then s!"{structSize g},{structSize g}" else "PANIC"
-    some (model, verdictEq spec impl)
+    some (tree ++ "|" ++ model, verdictEq (tree ++ "|" ++ spec) impl)
+
+/-- `pbrt kind ver payload`: Marshal then Unmarshal of a real message; output
+    n,ver,err,equal,n2,len -- all three counts equal the bytes written, the message is equal -/
+def hPbRt : List String → String → Res
+  | [_kind, ver, _payload], impl => do
+    let ver ← pVer ver
+    let len := (impl.splitOn ",").getLast?.getD "?"
+    let expect := s!"{len},{showBytes ver},nil,true,{len},{len}"
+    some (expect, verdictEq expect impl)
   | _, _ => none
 
 end Low.Driver
